@@ -3,6 +3,7 @@ package main
 import (
 	"fmt"
 	"go/token"
+	"go/types"
 	"strings"
 
 	"golang.org/x/tools/go/ssa"
@@ -330,4 +331,109 @@ func checkPasswordCutAfterSASLprep(c *Ctx) {
 			r.OK("C24.R4", fid, "SASLprep before the cut", p.Pos(fn.Pos()), "the value cut at 127 is processInput's result; processInput receives the uncut password", true)
 		}
 	}
+}
+
+// ---------------- C24.R5 (round 4 seed C24-E): the permanent file identifier stays what was read ----------------
+
+// checkPermanentIDKept: for revisions 2–4 the file key, /U and /O are functions of the first /ID element
+// (Algorithms 2 and 5). pdfcpu derives the key from the ID it read and writes the encryption dictionary it read, so
+// the first element has to reach the output unchanged. In every function of pkg/pdfcpu and pkg/api that holds the
+// document's ID (a value loaded from the ID field of the cross-reference table / context):
+//   * no store goes through index 0 of it (the store through index 1 in ensureFileID — the changing identifier —
+//     is the positive instance that shows such stores are seen), and
+//   * the field as a whole is assigned only where nothing was there: behind ID == nil, or in the reader.
+func checkPermanentIDKept(c *Ctx) {
+	p, r := c.P, c.R
+	isIDArray := func(v ssa.Value) bool {
+		for _, l := range valueLeaves(v) {
+			fp := fieldPath(l)
+			if strings.HasSuffix(fp, ".ID") || fp == "ID" {
+				if strings.HasSuffix(types.Unalias(l.Type()).String(), "types.Array") {
+					return true
+				}
+			}
+		}
+		return false
+	}
+	idx0, idx1, whole := 0, 0, 0
+	for _, fn := range p.Funcs {
+		if !isSubject(fn) || fn.Pkg == nil {
+			continue
+		}
+		pp := fn.Pkg.Pkg.Path()
+		if pp != modPath+"/pkg/pdfcpu" && pp != modPath+"/pkg/api" && pp != modPath+"/pkg/pdfcpu/model" {
+			continue
+		}
+		// edges on which the ID field is nil
+		var nilEdges []Edge
+		eachInstr(fn, func(_ *ssa.BasicBlock, _ int, i ssa.Instruction) {
+			bo, ok := i.(*ssa.BinOp)
+			if !ok || (bo.Op != token.EQL && bo.Op != token.NEQ) {
+				return
+			}
+			var other ssa.Value
+			switch {
+			case isNilConst(bo.Y):
+				other = bo.X
+			case isNilConst(bo.X):
+				other = bo.Y
+			default:
+				return
+			}
+			if isIDArray(other) {
+				nilEdges = append(nilEdges, condEdges(bo, bo.Op == token.EQL)...)
+			}
+		})
+		k := 0
+		eachInstr(fn, func(b *ssa.BasicBlock, _ int, i ssa.Instruction) {
+			st, ok := i.(*ssa.Store)
+			if !ok {
+				return
+			}
+			switch a := st.Addr.(type) {
+			case *ssa.IndexAddr:
+				if !isIDArray(a.X) {
+					return
+				}
+				n, isC := constInt(a.Index)
+				k++
+				construct := fmt.Sprintf("store into the ID array#%d", k)
+				switch {
+				case isC && n == 1:
+					idx1++
+					r.OK("C24.R5", FuncID(fn), construct, p.Pos(st.Pos()), "the second (changing) identifier is replaced", true)
+				default:
+					idx0++
+					r.Bad("C24.R5", FuncID(fn), construct, p.Pos(st.Pos()), "the first element of an existing /ID array is overwritten: for encryption revisions 2–4 the key, /U and /O that are written were derived from the identifier that was read, so the output opens with no password in any reader (pdfcpu included)")
+				}
+			case *ssa.FieldAddr:
+				f := structField(a.X.Type(), a.Field)
+				if f == nil || f.Name() != "ID" || !strings.HasSuffix(types.Unalias(f.Type()).String(), "types.Array") {
+					return
+				}
+				if strings.HasSuffix(p.File(fn.Pos()), "pkg/pdfcpu/read.go") || strings.Contains(fn.Name(), "reate") {
+					return // the reader fills the field from the trailer; constructors of new documents
+				}
+				k++
+				whole++
+				construct := fmt.Sprintf("assignment of the ID field#%d", k)
+				behind := false
+				for _, e := range nilEdges {
+					if edgeDominates(e, b) {
+						behind = true
+					}
+				}
+				if behind {
+					r.OK("C24.R5", FuncID(fn), construct, p.Pos(st.Pos()), "behind ID == nil: there was no identifier", true)
+				} else {
+					r.Bad("C24.R5", FuncID(fn), construct, p.Pos(st.Pos()), "the document's /ID array is replaced as a whole on a path where one may exist: the first element does not reach the output unchanged")
+				}
+			}
+		})
+	}
+	if idx1 == 0 {
+		r.Bad("C24.R5", "pkg/pdfcpu.ensureFileID", "anchor", "", "UNRESOLVED-ANCHOR: no store into the second element of the ID array found (the positive instance of this rule)")
+	}
+	_ = idx0
+	_ = whole
 }
